@@ -6,7 +6,7 @@ claim("C03",
 KNOTE = "Kani/CBMC/cvc5/CaDiCaL/Kissat and Verus/Z3 are trusted. Machine arithmetic is bit-precise IEEE-754 / two's complement, never mathematical."
 claim("C01",
   "Verus contracts + loop invariant on the extracted real from_keyframes/get_bounding_frames/value_at (unbounded); Kani contracts on interpolate_value/prepare_frame",
-  "The frame list from_keyframes builds equals, for EVERY keyframe list (any length, any sparse pattern, any easing pattern), the fold the statement describes (synthetic 0% frame with default value + default easing, one frame per defining keyframe with the easing in force, held 100% frame); the index map is the master-to-property map; the O(1) lookup returns consecutive frames that bracket the position (lemma over the `linked` invariant that from_keyframes establishes); value_at = interpolate(lookup(clamp t)); interpolate_value = start.lerp(end, START easing((t-t0)/(t1-t0))) for all positions (Kani, recording probe types). prepare_frame's index is proved bracketing for 0..4, 6, 8 and 16 master keyframes (bounded).",
+  "The frame list from_keyframes builds equals, for EVERY keyframe list (any length, any sparse pattern, any easing pattern), the fold the statement describes (synthetic 0% frame with default value + default easing, one frame per defining keyframe with the easing in force, held 100% frame); the index map is the master-to-property map; the O(1) lookup returns consecutive frames that bracket the position (lemma over the `linked` invariant that from_keyframes establishes); value_at = interpolate(lookup(clamp t)); interpolate_value = start.lerp(end, START easing((t-t0)/(t1-t0))) for all positions (Kani, recording probe types). prepare_frame (extracted, Verus) is proved for EVERY number of master keyframes assuming std's documented binary-search contract (A7); the real std search is executed by bounded Kani harnesses (0..16, 64 keyframes) and a native search (1..40 keyframes). For keyframes sharing a position the builder keeps insertion order (bounded native search, 2..96 keyframes).",
   "A2 (f32 order axioms, each cross-checked by a Kani harness over all bit patterns), A3, V-R1 (from_keyframes taken at &Vec, the derive macro's call shape), pure value function; interpolate_value enters Verus as an uninterpreted function. " + KNOTE,
   "DESIGN.md section 5 C01")
 claim("C02",
@@ -30,7 +30,7 @@ claim("C06",
 claim("C07",
   "Kani: is_ended contract + stability under advance; TimeScale duration/terminal lemmas; MergedTimeline::duration = max",
   "is_ended <=> (no timeline || as_secs_f32(time) >= duration()), never under an infinite duration, stable under further advances (monotone time); merged duration = max of components (infinite absorbing); the reported total duration agrees with the behaviour for every configuration (from t >= duration() on, every position the TimeScale contract allows is the terminal one - proved without an exactness side condition since the fix of the end-instant defect) and the terminal position is constant.",
-  "as C04 + A1", "DESIGN.md section 5 C07")
+  "as C04 + A1; that real timelines are terminal for every t >= duration() is C03's lemma (all configurations) and is exercised by the native frame simulation. ", "DESIGN.md section 5 C07, 8.14")
 claim("C08",
   "Verus: from_keyframes/value_at postconditions (no defining keyframe => empty => None); Kani: prepare_frame None iff no keyframes, animator/merged frame clauses",
   "For every keyframe list: no keyframe defines the property => frames and map empty => value_at returns None for every (t, hint, flag) (unbounded, Verus); no keyframes => prepare_frame returns None; the animator's advance/set_state and MergedTimeline::update leave unanimated properties bit-identical.",
@@ -40,13 +40,13 @@ claim("C10",
   "The substituted start frame is returned iff enabled && index==0 && present (get_frame, all sizes); override_start_value replaces (not merges) and preserves wf/linked; the enable flag is on exactly for NotStarted and for Active && !repeating && !reversing (prepare_frame against an arbitrary callee result), and the flags mean 'first forward pass' (lemma over get_position's contract).",
   "A1, A2, A3. " + KNOTE, "DESIGN.md section 5 C10")
 claim("C11",
-  "Kani contract harness on TimelineBuilderArguments::from (sort executed, N in {0..5, 7, 8, 9} keyframes, symbolic positions)",
+  "Kani contract harness on TimelineBuilderArguments::from (sort executed, N in {0..5, 7, 8, 9} keyframes, symbolic positions) + native search over every insertion order of <= 8 keyframes (sampled to 16)",
   "For 0..5, 7, 8 (9 in the thorough tier) keyframes in any insertion order with fully symbolic positions: keyframes come out sorted, boundary_times[i] is keyframe i's position, nothing lost or duplicated, timing reaches the TimeScale. Bounded in the number of keyframes (labelled bounded, not counted as proved); the downstream contracts (C01) take the sorted list, so equal sorted lists give equal timelines.",
-  "bounded: N in {0..5, 7, 8, 9}. " + KNOTE, "DESIGN.md section 5 C11")
+  "bounded: N in {0..5, 7, 8, 9} (Kani), every insertion order of n <= 8 and samples to n = 16 (native execution; stands in with a concrete order when a Kani obligation is undecided). " + KNOTE, "DESIGN.md section 5 C11, 8.13")
 claim("C12",
   "Verus loop-invariant proof of MergedTimeline::update for any number of components + Kani harnesses on MergedTimeline over arbitrary abstract component timelines (0..5 components)",
   "update = components applied in order for EVERY number of components (Verus, extracted loop); bounded (Kani, 0..5): update = in order (later wins), start_with reaches each once, delay=min, duration=max, repeat=max (Repeat is a total order), cycle=common-or-None, clone equivalent, single wrap transparent, disjoint components commute. Bounded in the number of components (0..5), components themselves arbitrary.",
-  "update: unbounded (Verus); the rest bounded: <=5 components; abstract TL. " + KNOTE, "DESIGN.md section 5 C12")
+  "update: unbounded (Verus); the rest bounded: <=5 components over abstract TL (Kani) and 0..12 concrete components (native search). " + KNOTE, "DESIGN.md section 5 C12")
 claim("C13",
   "Kani per-variant harnesses on Easing::calc (endpoints exact, dispatch == published control points for all x, Back range), known finding for timing-function semantics",
   "All 29 built-ins: calc(0)==0 and calc(1)==1 exactly; for every f32 x in [0,1] each variant computes the Bezier polynomial of its PUBLISHED control points (table typed from CSS/easings.net, not from easing.rs); Linear is the identity; custom easings are used as given. The timing-function reading (value at horizontal position x) is a recorded known finding. Range of non-Back curves / monotonicity / mirror are not decided.",
@@ -66,11 +66,11 @@ claim("C09",
 claim("C17",
   "Kani harnesses on rustc's real expansion of derive(Animate) for a struct family, callees replaced by scripted recording stubs",
   "For each shape in the family: setters exist for exactly the animated fields (compile-time + exhaustive pattern on the keyframe data), keyframe_from copies the animated fields, build wires each field to its own getter/Default/sub-timeline and stores boundary times and timescale, accessors return the configured timing, update = prepare_frame then assign-iff-Some per field with one common (nt, idx, flag), start_with reaches each sub-timeline, excluded and remote-only fields are never written.",
-  "bounded over programs (four shapes); the proc-macro's own code is not verified, its output is. " + KNOTE, "DESIGN.md section 5 C17")
+  "bounded over programs (struct family); the proc-macro's own code is not verified, its output is; a native search runs the real derive output with the real callees (no stubs) and supplies concrete inputs for failed L-GEN obligations. " + KNOTE, "DESIGN.md section 5 C17")
 claim("C18",
   "Kani step contract on the per-entity loop body of bevy animate, extracted byte-for-byte each run into a std-only crate with ECS shims",
   "One execution of the real loop body from EVERY animator state (enabled flag, position, timeline present/absent, any state), any frame delta, any timeline timing: disabled => nothing changes; position grows by exactly delta unless ended; state monotone; Waiting => pos < delay; Ended <=> was Ended or pos >= duration, never under infinite duration; evaluated at the current position iff Playing or ending unplayed; exactly one event iff the state changed, carrying the final state; Ended => component was evaluated at/after the end (after the fix).",
-  "A6 (ECS shims: one entity, recording event writer, symbolic delta), A4' (Duration->f32 monotone). Multi-frame sentences follow by induction over frames (argued, not machine-checked). " + KNOTE, "DESIGN.md section 5 C18")
+  "A6 (ECS shims: one entity, recording event writer, symbolic delta), A4' (Duration->f32 monotone). Multi-frame sentences follow by induction over frames (argued, not machine-checked) and are exercised, bounded, by a native simulation of the extracted body over up to 4000 frames with real mina timelines and real Duration arithmetic (this simulation found the end-instant defect repaired in /repo b86a6c2). " + KNOTE, "DESIGN.md section 5 C18")
 claim("C19",
   "Kani step contracts on the loop bodies of select_animation and chain_animations (same extraction)",
   "select: same key => nothing restarts; new key => the animator gets a clone of that key's timeline started from the component's current values (evaluating it at time 0 reproduces them: no jump), position 0, state None; key without timeline => timeline None, component untouched. chain: the key moves to next[key] iff the event is Ended for this entity and the chain has an entry for the active key. The 'other animator on the entity' clause is a recorded known finding of the event type (not expressible with one animator per entity).",
